@@ -212,7 +212,7 @@ def run(ctx):
     cc.proof_part(ctx)
     rng = random.Random(ctx.seed)
     gg = G.GrammarGen(rng, excl=0.1, prose=0.02)
-    hist = list(CORPUS) + [gen_history(rng, gg) for _ in range(ctx.budget(300, 4000))]
+    hist = list(CORPUS) + [gen_history(rng, gg) for _ in range(ctx.budget(300, 2500))]
     found = False
     rep = 0
     evals = 0
